@@ -54,6 +54,14 @@ func (s *Script) requests(callID string) []chunk {
 	var out []chunk
 	for i := 0; i < s.NMsg; i++ {
 		c := chunk{ID: callID, Seq: int32(i), Text: fmt.Sprintf("m%d", i)}
+		if i < len(s.ReqSize) && s.ReqSize[i] != "" && (i > 0 || s.MetaPlan) {
+			if s.ReqSize[i] == "tiny" {
+				out = append(out, chunk{Seq: int32(i + 1)}) // two bytes
+			} else {
+				out = append(out, chunk{}) // zero bytes
+			}
+			continue
+		}
 		if i == 0 && !s.MetaPlan {
 			c.Script = s.planJSON()
 		}
@@ -251,7 +259,7 @@ func streamed(s *Script) bool { return s.Duplex || hasThink(s.Client) }
 // messages: in memory, or - for streamed scripts - a pipe fed by a goroutine
 // that executes the client plan (h2c sends each write as it comes). gz
 // compresses the stream as a whole (flushed after every message).
-func requestBody(ctx context.Context, s *Script, reqs []chunk, enc func(chunk) ([]byte, error), gz bool) (io.Reader, error) {
+func requestBody(ctx context.Context, s *Script, reqs []chunk, enc func(int, chunk) ([]byte, error), gz bool) (io.Reader, error) {
 	if !streamed(s) {
 		var body bytes.Buffer
 		var w io.Writer = &body
@@ -260,8 +268,8 @@ func requestBody(ctx context.Context, s *Script, reqs []chunk, enc func(chunk) (
 			zw = gzip.NewWriter(&body)
 			w = zw
 		}
-		for _, c := range reqs {
-			b, err := enc(c)
+		for i, c := range reqs {
+			b, err := enc(i, c)
 			if err != nil {
 				return nil, err
 			}
@@ -291,7 +299,7 @@ func requestBody(ctx context.Context, s *Script, reqs []chunk, enc func(chunk) (
 			switch op {
 			case "s":
 				if next < len(reqs) {
-					b, err := enc(reqs[next])
+					b, err := enc(next, reqs[next])
 					if err != nil {
 						pw.CloseWithError(err)
 						return
@@ -324,12 +332,15 @@ func requestBody(ctx context.Context, s *Script, reqs []chunk, enc func(chunk) (
 func runWeb(ctx context.Context, hc *http.Client, base string, s *Script, callID string) ClientT {
 	var t ClientT
 	reqs := s.requests(callID)
-	enc := func(c chunk) ([]byte, error) {
+	enc := func(i int, c chunk) ([]byte, error) {
 		b, err := proto.Marshal(c.msg())
 		if err != nil {
 			return nil, err
 		}
-		if s.Gzip {
+		// On a gzip stream the flag is per message: empty messages go
+		// uncompressed (as grpc-go sends them), and with MixFlags so does
+		// every second other message.
+		if s.Gzip && len(b) > 0 && !(s.MixFlags && i%2 == 1) {
 			return wire.Frame(wire.Gzip(b), true), nil
 		}
 		return wire.Frame(b, false), nil
@@ -452,7 +463,7 @@ func runHTTP(ctx context.Context, hc *http.Client, base string, s *Script, callI
 		u := base + pathOf[s.Shape] + "/" + callID + "?script=" + url.QueryEscape(reqs[0].Script)
 		req, err = http.NewRequestWithContext(ctx, "GET", u, nil)
 	} else {
-		rd, berr := requestBody(ctx, s, reqs, func(c chunk) ([]byte, error) { return jsonM.Marshal(c.msg()) }, s.Gzip)
+		rd, berr := requestBody(ctx, s, reqs, func(_ int, c chunk) ([]byte, error) { return jsonM.Marshal(c.msg()) }, s.Gzip)
 		if berr != nil {
 			t.TransportErr = "marshal: " + berr.Error()
 			return t
